@@ -11,7 +11,7 @@ trap 'rm -rf "$scratch"' EXIT
 rsync -a --exclude .git --exclude node_modules /repo/ "$scratch/"
 (cd "$scratch" && patch -p1 -s < "$patch") || { echo "PATCH FAILED"; exit 3; }
 (cd "$scratch" && go build ./... ) || { echo "DOES NOT COMPILE"; exit 4; }
-out=$(VERIF_REPO="$scratch" VERIF_DIR="$scratch/.verifout" bash -c 'mkdir -p "$VERIF_DIR/evidence"; cp known_findings.json properties.jsonl "$VERIF_DIR/"; bin/esverif check all --tier quick' 2>&1)
+out=$(VERIF_REPO="$scratch" VERIF_DIR="$scratch/.verifout" bash -c 'mkdir -p "$VERIF_DIR/evidence"; cp known_findings.json properties.jsonl "$VERIF_DIR/"; ${ESVERIF_BIN:-bin/esverif} check all --tier quick' 2>&1)
 if echo "$out" | grep -q "^VIOLATION"; then
   echo "FALSE ALARMS:"
   echo "$out" | grep -B1 '^VIOLATION' | grep -v '^VIOLATION' | grep -v '^--' | cut -c1-400
